@@ -188,3 +188,11 @@ Proof.
   injection Hv as Hv. injection Hp as Hp. specialize (IH v vp Hv Hp).
   unfold vadd, vscale in IH. cbn in IH. rewrite IH. destruct bv, bp; cbn; lra.
 Qed.
+
+Lemma sum_vmul_dot (a b : list R) : sum ROps (vmul a b) = dot ROps a b.
+Proof.
+  unfold vmul. revert b; induction a as [|x a IH]; intros [|y b]; try reflexivity.
+  cbn [combine map sum dot fst snd]. rewrite IH. reflexivity.
+Qed.
+Lemma dot_self_map (f : R -> R) (t : list R) : dot ROps t (map f t) = sum ROps (map (fun x => nmul ROps x (f x)) t).
+Proof. induction t as [|x t IH]; [reflexivity|]. cbn [map dot sum]. rewrite IH. reflexivity. Qed.
